@@ -68,6 +68,8 @@ def how_label(sc, rec):
             return f"callback-raised:{f['cb']}:{f['exc']}"
         if f["kind"] == "throw":
             return f"thrown:{f['exc']}"
+        if f["kind"] == "hook":
+            return f"hook-raised:{f['hook']}:{f['exc']}"
     v = View(rec, sc)
     how, s = run_ending(v)
     if how == "special":
@@ -147,6 +149,13 @@ def enumerate_faults(ctx, base, entry, rng, tier, stats):
         for i in range(n):
             for k in kinds:
                 plans.append({"kind": "cb", "cb": cb, "at": i, "exc": k})
+    # observability hooks are callback invocations too: a KeyboardInterrupt / SystemExit / CancelledError arriving while the
+    # library is inside on_metric / on_log / before_sleep (ordinary Exceptions there are C15's business)
+    for hk in ("metric", "log", "before_sleep"):
+        n = counts.get("hook:" + hk, 0)
+        for i in range(n):
+            for k in (("kbd", "sysexit", "cancel") if tier != "quick" or i < 3 else ("kbd",)):
+                plans.append({"kind": "hook", "hook": hk, "at": i, "exc": k})
     if entry.startswith("a"):
         for sp in range(clean.suspensions):
             for k in THROW_KINDS:
@@ -204,6 +213,7 @@ def conclude(ctx):
         "settle:thrown": (ctx.cnt["settle:thrown"], 300),
         "settle:op-raised": (ctx.cnt["settle:op-raised"], 200),
         "settle:ended": (ctx.cnt["settle:ended"], 200),
+        "settle:hook-raised": (ctx.cnt["settle:hook-raised"], 200),
         "distinct (entry, termination) cells": (len(ctx.sets["cells"]), 60),
     }
     return dict(
